@@ -865,6 +865,8 @@ class Concat(Rule):
     evaluates and appends left to right).  Terms: 'c' | "lit" | string(n, 'c') | X->serialize(args) | X.serialize(args) | a local
     std::string.  `char + literal` as the first two terms would be pointer arithmetic in C++: extraction break."""
 
+    defaults = ('0', '0')             # (options, indent_level) defaults of JSON::serialize; overwritten from the header text on every run
+
     def __init__(self, child):
         self.child = child            # C expression naming the child in `o->serialize(..)` / `value.serialize(..)`
         self.pat, self.count = 'string concatenation -> emitters', None
@@ -879,9 +881,9 @@ class Concat(Rule):
             return 'C04_emit_fill(ret, %s, %s);' % (mo.group(1), mo.group(2)), True
         mo = re.fullmatch(r'(\w+)(?:->|\.)serialize\(([^()]*)\)', t)
         if mo:
-            args = [a.strip() for a in mo.group(2).split(',')]
-            if len(args) == 1:
-                args.append('0')          # default argument indent_level = 0
+            args = [a.strip() for a in mo.group(2).split(',') if a.strip()]
+            # default arguments, read from the declaration in JSON.hh (Concat.defaults, set by container_units)
+            args += list(self.defaults[len(args):])
             if len(args) != 2:
                 raise ExtractionBreak('%s: serialize call with %d arguments' % (where, len(args)))
             return 'C04_emit_child(ret, %s, %s, %s);' % (self.child, args[0], args[1]), True
@@ -900,6 +902,10 @@ class Concat(Rule):
         return ' '.join(out)
 
     def apply(self, text, where=''):
+        # the other ways of appending to the result string: ret.append(n, 'c'); ret.push_back('c'); ret.append("lit");
+        text = re.sub(r"\bret\.append\(([^;()]*(?:\([^;()]*\))?[^;()]*), ('(?:\\.|[^'\\])')\);", r'C04_emit_fill(ret, \1, \2);', text)
+        text = re.sub(r"\bret\.push_back\(('(?:\\.|[^'\\])')\);", r'C04_emit_char(ret, \1);', text)
+        text = re.sub(r'\bret\.append\((' + LIT + r')\);', r'C04_emit_lit(ret, \1);', text)
         # statements are located on the masked text, so that a ';' or '+' inside a literal is never taken for structure
         while True:
             m = lex.mask(text)
@@ -936,6 +942,10 @@ __CPROVER_decreases(dict_n - verif_i)
 
 def container_units(ctx, src, cases, arms):
     u = Unit(ctx, 'json_containers')
+    mo = re.search(r'\bserialize\(uint32_t options = ([^,()]+), size_t indent_level = ([^,()]+)\) const;', src.text(HH))
+    if not mo:
+        raise ExtractionBreak('%s: declaration `serialize(uint32_t options = .., size_t indent_level = ..) const;` not found' % HH)
+    Concat.defaults = (mo.group(1).strip(), mo.group(2).strip())
     u.raw('#include "stubs/C04_emit.h"\n')
     for k in ('list', 'dict'):
         u.function(src, HH, r'inline bool is_%s\(\) const' % k, new_header='static inline bool JSON_is_%s(const JSONV* self)' % k, rules=[ACCESS_RULES[0]])
